@@ -17,6 +17,7 @@ type CheckCfg struct {
 	Property string      `json:"property"`
 	Level    string      `json:"level"`
 	Lock     bool        `json:"lock"`
+	Facets   []string    `json:"facets"` // contract facets ("@name" clauses) active in this check
 	Scope    []ScopeItem `json:"scope"`
 	Replay   map[string]string `json:"replay"` // obligation glob -> driver
 	Explanation string   `json:"explanation"`
@@ -109,6 +110,9 @@ func cmdCheck(args []string) int {
 	var known []KnownFinding
 	if d, err := os.ReadFile(filepath.Join(vd, "known_findings.json")); err == nil {
 		json.Unmarshal(d, &known)
+	}
+	for _, f := range cfg.Facets {
+		ActiveFacets[f] = true
 	}
 	p, e := loadAll()
 	timeout := 10
